@@ -30,7 +30,7 @@ impl Prop for C12 {
     fn id(&self) -> &'static str { "C12" }
     fn rule(&self) -> String {
         "the real binary (built from the working tree with the tree's crypto crate) over the wiring matrix {file argument | stdin} x {-o | stdout} x {-k | KESTREL_KEYRING} x {long | short option names} x {command | alias} x {--opt value | --opt=value} \
-         for encrypt, decrypt, password encrypt, password decrypt; inputs: valid files of 0 B, 10 B, 65536 B, 70000 B; invalid: wrong key, corrupted chunk 0 / chunk 1, truncated, trailing byte, missing keyring; keyrings with the sender first / last / absent / without private key. \
+         for encrypt, decrypt, password encrypt, password decrypt; inputs: valid files of 0 B, 10 B, 65536 B, 70000 B; invalid: wrong key, corrupted chunk 0 / chunk 1, truncated, trailing byte, missing keyring; keyrings with the sender first / last / absent, with and without a preceding entry whose checksum is wrong; with and without a longer unrelated file already present at the output path. \
          compared with the Lean CLI model: exit status, delivered bytes (file or stdout), sender line; oracle: exit 0 iff the delivered bytes are the complete original (decrypt) resp. decrypt back to it under the model (encrypt), 'Error:' line iff exit 1. \
          non-trivial = distinct (operation, input, wiring)".into()
     }
@@ -66,7 +66,10 @@ impl Prop for C12 {
         let plain = crate::gen::payload(rng.next(), plen);
         let pw = "pass123";
         // keyring: bob is always the recipient with a private key; alice is the sender
+        // an entry whose checksum is wrong is legal in a keyring (only used entries are verified): it must not disturb anything
+        let bogus = { let mut e = fx.carol.enc_pk.clone().into_bytes(); let l = e.len(); e[l - 1] = if e[l - 1] == b'A' { b'B' } else { b'A' }; format!("[Key]\nName = bogus checksum\nPublicKey = {}\n\n", String::from_utf8(e).unwrap()) };
         let kr_text = match get(c, "kr") { "sender-first" => keyring(&[(&fx.alice, true), (&fx.bob, true), (&fx.carol, false)]), "sender-last" => keyring(&[(&fx.carol, false), (&fx.bob, true), (&fx.alice, true)]), _ => keyring(&[(&fx.carol, false), (&fx.bob, true)]) };
+        let kr_text = if w % 2 == 1 { format!("{}{}", bogus, kr_text) } else { kr_text };
         let decrypting = op.contains("decrypt");
         let keym = !op.starts_with("pass");
         // the input file
@@ -88,14 +91,20 @@ impl Prop for C12 {
         let mut files = vec![(PLAIN.to_string(), infile.clone())];
         if input != "nokeyring" { files.push((KR.to_string(), kr_text.clone().into_bytes())); } else if keym { expect_ok = false; }
         if !k_opt && keym { env.push(("KESTREL_KEYRING".into(), KR.into())); }
+        // half of the runs find a longer, unrelated file already at the output path: it must be replaced, not patched
+        let stale: Vec<u8> = vec![0x55u8; 200_000];
+        let has_stale = out_opt && (w >> 2) % 2 == 0;
+        if has_stale { files.push(("out.bin".into(), stale.clone())); }
         let world = World { files, env, stdin: if file_arg { vec![] } else { infile.clone() } };
         let args = render(op, "bob", "alice", file_arg, out_opt, k_opt, long, alias, eqform, PLAIN, "out.bin");
         let obs = run_kestrel(&world, &args);
         let (ra, rb) = (rng.bytes(32), rng.bytes(32));
         let mo = model_cli(m, &world, &args, &ra, &rb);
         o.validated += 1;
-        let delivered: Vec<u8> = if out_opt { obs.file("out.bin").cloned().unwrap_or_default() } else { obs.stdout.clone() };
-        let mdelivered: Vec<u8> = if out_opt { mo.file("out.bin").cloned().unwrap_or_default() } else { mo.stdout.clone() };
+        // a pre-existing file that is still byte-for-byte there means "nothing delivered, path untouched"
+        let untouched = |f: Option<&Vec<u8>>| -> Vec<u8> { match f { Some(b) if has_stale && *b == stale => vec![], Some(b) => b.clone(), None => vec![] } };
+        let delivered: Vec<u8> = if out_opt { untouched(obs.file("out.bin")) } else { obs.stdout.clone() };
+        let mdelivered: Vec<u8> = if out_opt { untouched(mo.file("out.bin")) } else { mo.stdout.clone() };
         o.impl_obs = format!("exit={:?} delivered={}B sender={} stderr={:?}", obs.exit, delivered.len(), sender_canon(&obs.sender()), obs.stderr.lines().last().unwrap_or("").chars().take(60).collect::<String>());
         o.model_obs = format!("exit={} err={} delivered={}B sender={}", mo.exit, mo.err, mdelivered.len(), mo.sender);
         o.tags.push(format!("{} {} -> exit {:?}", op, input, obs.exit));
